@@ -278,6 +278,13 @@ func c06(c *Ctx) {
 		scs = append(scs, LifeScenario{Cause: "close", Closers: 1, Flood: true, Track: tr, ConnectAgain: "early"})
 		tags = append(tags, "connect-again")
 	}
+	// Config.Timeout set to a small value while a foreground handler keeps working for longer than that after the
+	// connection has begun to go down: the teardown still waits for it (Timeout bounds the dial and the ping, nothing else)
+	for _, cause := range []string{"close", "eof"} {
+		scs = append(scs, LifeScenario{Cause: cause, Closers: 1, Flood: true, InBacklog: 2, TimeoutMs: 100, HoldMs: 400},
+			LifeScenario{Cause: cause, Closers: 1, Flood: true, InBacklog: 2, TimeoutMs: 100, HoldMs: 400, OutBacklog: 5, OutFrom: "handler", Reconnect: "goroutine", Cycles: 1})
+		tags = append(tags, "small-timeout-slow-handler", "small-timeout-slow-handler+reconnect")
+	}
 	// the context handed to ConnectContext is already done, or ends while a context-unaware dialer is at work
 	for _, when := range []string{"before", "during"} {
 		scs = append(scs, LifeScenario{Cause: "cancel", Flood: true, CancelEarly: when, GoMaxProcs: []int{1, 4}[c.R.N(2)]})
@@ -383,6 +390,13 @@ func c07(c *Ctx) {
 		}
 		scs = append(scs, sc)
 		tags = append(tags, tag)
+	}
+	// Config.Timeout set to a small value while a foreground handler keeps working for longer than that after the
+	// connection has begun to go down: the teardown still waits for it (Timeout bounds the dial and the ping, nothing else)
+	for _, cause := range []string{"close", "eof"} {
+		scs = append(scs, LifeScenario{Cause: cause, Closers: 1, Flood: true, InBacklog: 2, TimeoutMs: 100, HoldMs: 400},
+			LifeScenario{Cause: cause, Closers: 1, Flood: true, InBacklog: 2, TimeoutMs: 100, HoldMs: 400, OutBacklog: 5, OutFrom: "handler", Reconnect: "goroutine", Cycles: 1})
+		tags = append(tags, "small-timeout-slow-handler", "small-timeout-slow-handler+reconnect")
 	}
 	// the context handed to ConnectContext is already done, or ends while a context-unaware dialer is at work
 	for _, when := range []string{"before", "during"} {
